@@ -227,7 +227,6 @@ func (tx *Tx) RangeScan(bucket string, start, end []byte) (es Entries, err error
 				path := tx.db.getDataPath(r.H.fileID)
 				df, err := NewDataFile(path, tx.db.opt.SegmentSize, tx.db.opt.RWMode)
 				if err != nil {
-					df.rwManager.Close()
 					return nil, err
 				}
 				if item, err := df.ReadAt(int(r.H.dataPos)); err == nil {
